@@ -26,6 +26,19 @@ from vlib import cb, cl, cln, cn, coq_eval_bools, coq_eval_print, exc_kind, load
 IMPORTS = ("From Coq Require Import Qcanon.\nFrom PV Require Import C05.Model C05.Spec.\n"
            "Local Open Scope nat_scope.\n")
 EPS = Fraction(1, 2 ** 30)
+EPS32 = Fraction(1, 2 ** 15)   # float32 cases: masses are <= 1 and built from < 100 rounded (2^-24) + and *
+
+
+def _f32(case):
+    return case.get("dtype") == "float32"
+
+
+def _dt(case):
+    return torch.float32 if _f32(case) else torch.float64
+
+
+def _eps(case):
+    return EPS32 if _f32(case) else EPS
 NEG = "-inf"
 THEOREMS = ["c05_model_refines_pbs_ref", "c05_model_mass_le_exact", "c05_model_exact_when_unpruned", "c05_prefix_matrix_invariant",
             "c05_prefix_matrix_invariant_step", "c05_valid_prefixes_distinct_blank_free_bounded", "c05_sorted_by_mass",
@@ -315,15 +328,21 @@ def _mk_lm(case):
                 x = hist.gather(0, (idx - 1).clamp(min=0).unsqueeze(0)).squeeze(0)
                 x = torch.where(idx == 0, torch.full_like(x, self.vocab_size), x)
             h1 = (self.a * prev["h"] + x + 1) % self.M
+            if raw:
+                # unnormalised scores (a large common offset included): the module normalises them itself
+                return self.table[h1], {"h": h1}
             return self.table[h1].log_softmax(-1), {"h": h1}
 
     lm = case["lm"]
-    return HashLM(case["V"], lm["M"], lm["a"], lm["h0"], torch.tensor(lm["table"], dtype=torch.float64))
+    raw = bool(lm.get("raw"))
+    return HashLM(case["V"], lm["M"], lm["a"], lm["h0"], torch.tensor(lm["table"], dtype=_dt(case)))
 
 
 def lm_rows(case):
     """the rows the module derives from the LM's output, per LM state (oracle, regime T)"""
-    tab = torch.tensor(case["lm"]["table"], dtype=torch.float64).log_softmax(-1)
+    tab = torch.tensor(case["lm"]["table"], dtype=_dt(case))   # float32 values are exact doubles
+    if not case["lm"].get("raw"):
+        tab = tab.log_softmax(-1)
     if case["fusion"] == "mix":
         rows = tab.softmax(-1)
     else:
@@ -337,7 +356,7 @@ def run_search(case, record=True):
     from pydrobert.torch.modules import CTCPrefixSearch
 
     T, N, V, w = case["T"], case["N"], case["V"], case["width"]
-    logits = torch.tensor(case["logits"], dtype=torch.float64).view(T, N, V + 1)
+    logits = torch.tensor(case["logits"], dtype=_dt(case)).view(T, N, V + 1)
     lens = None if case["lens"] is None else torch.tensor(case["lens"], dtype=torch.long)
     fused = case["fusion"] != "none"
     lm = _mk_lm(case) if (fused and case.get("lm")) else None
@@ -375,7 +394,7 @@ def run_search(case, record=True):
 
 def _probs_of(case):
     T, N, V = case["T"], case["N"], case["V"]
-    logits = torch.tensor(case["logits"], dtype=torch.float64).view(T, N, V + 1)
+    logits = torch.tensor(case["logits"], dtype=_dt(case)).view(T, N, V + 1)
     return logits.softmax(2)
 
 
@@ -425,7 +444,7 @@ def search_terms(case, out):
             continue
         terms.append(
             f"check_search {cn(case['V'])} {cn(case['width'])} {fus} {lmt} {cn(_len_of(case, n))} "
-            f"{_frames_term(probs, n, lm_, case['V'])} {cl([cln(c) for c in e['choices']])} {cqc(EPS)} "
+            f"{_frames_term(probs, n, lm_, case['V'])} {cl([cln(c) for c in e['choices']])} {cqc(_eps(case))} "
             f"{cl([cln(c) for c in e['y']])} {cln(e['lens'])} {clm(e['probs'])}")
     return terms
 
@@ -452,7 +471,7 @@ def spec_terms(case, out, limit=None):
         frames = _frames_term(probs, n, ln, case["V"])
         outl = cl([f"({cln(c)}, {cmass(p)})" for c, p in zip(e["y"], e["probs"])])
         terms.append(f"(let frames := {frames} in spec_okb {cn(case['V'])} {cn(case['width'])} frames "
-                     f"(fused_score {fus} {lmt} frames) {cqc(EPS)} {outl})")
+                     f"(fused_score {fus} {lmt} frames) {cqc(_eps(case))} {outl})")
     return terms
 
 
@@ -502,6 +521,7 @@ def alone_check(case, out):
     T, N, V = case["T"], case["N"], case["V"]
     if all(v in (0.0, -math.inf) for row in case["logits"] for r in row for v in r):
         return None  # uniform supports: exact ties everywhere, topk may break them differently per shape
+    tol = 1e-9 if not _f32(case) else float(EPS32)
     for n in range(N):
         ln = _len_of(case, n)
         if N == 1 and ln == T and case["lens"] is None:
@@ -512,15 +532,15 @@ def alone_check(case, out):
         if "exc" in o2:
             return f"element {n} alone raises {o2['exc']}"
         a, b = out["elems"][n], o2["elems"][0]
-        da = {tuple(c): fl(p) for c, p in zip(a["y"], a["probs"]) if fl(p) > 1e-9}
-        db = {tuple(c): fl(p) for c, p in zip(b["y"], b["probs"]) if fl(p) > 1e-9}
+        da = {tuple(c): fl(p) for c, p in zip(a["y"], a["probs"]) if fl(p) > tol}
+        db = {tuple(c): fl(p) for c, p in zip(b["y"], b["probs"]) if fl(p) > tol}
         # a near-tie at the pruning boundary may legitimately resolve differently
         va = sorted(fl(p) for p in a["probs"] if p != NEG)
         if set(da) != set(db):
-            if any(abs(x - y) < 1e-9 for x, y in zip(va, va[1:])):
+            if any(abs(x - y) < tol for x, y in zip(va, va[1:])):
                 continue
             return f"element {n}: batched result {da} differs from the element searched alone {db}"
-        if any(abs(da[k] - db[k]) > 1e-9 for k in da):
+        if any(abs(da[k] - db[k]) > tol for k in da):
             return f"element {n}: batched masses {da} differ from the element searched alone {db}"
     return None
 
@@ -571,6 +591,69 @@ def gen_search(rng, big=False):
             if V > 1:
                 case["lm"]["table"][row][rng.randrange(V)] = -math.inf
     return case
+
+
+def _xrow(rng, n, f32, lm=False):
+    """one row of n extreme-magnitude logits: O(1) values scaled by 100..1000, and/or a common offset of
+    +-100..1000 (exp alone overflows beyond 88.7 in float32 / 709.8 in float64 and underflows to 0 below
+    -104 / -745), and/or one logit dominating by hundreds of nats (the softmax of the others underflows to
+    exactly 0, which the oracle reproduces).  For LM rows the dominating gap is kept just beyond the underflow
+    point, so that beta * log-probability is still O(1) for the small betas of the stream."""
+    mode = rng.choice(["scaled", "offset", "offset", "dominant", "dominant+offset", "scaled+offset"])
+    sd = 1.2 if lm else 1.5
+    s = rng.randint(100, 1000) if "scaled" in mode else 1
+    row = [round(rng.gauss(0, sd) * s, 3) for _ in range(n)]
+    if "dominant" in mode:
+        gap = (rng.randint(110, 400) if f32 else rng.randint(750, 1200)) if lm else rng.randint(100, 1500)
+        j = rng.randrange(n)
+        row[j] = round(row[j] + gap, 3)
+    if "offset" in mode:
+        big = rng.random() < 0.7
+        off = rng.choice([-1, 1]) * (rng.randint(720, 1000) if big else rng.randint(100, 720))
+        row = [round(v + off, 3) for v in row]
+    return row
+
+
+def gen_search_extreme(rng):
+    """extreme-magnitude regime: acoustic logits and / or the LM's (unnormalised) scores are huge, shifted by a
+    large common offset or dominated by one entry, in float32 and float64.  The stable kernels the code uses
+    (softmax, log_softmax) give finite probabilities here (some exactly 0); exp / sum(exp), log(softmax) or a
+    log-sum-exp without the max shift give NaN, +inf or zeros where the true mass is not negligible."""
+    while True:
+        case = gen_search(rng)
+        T, N, V = case["T"], case["N"], case["V"]
+        if T == 0:
+            continue
+        while (V + 1) ** T > 100:   # the numerical regime needs no long inputs; keeps the Coq terms cheap
+            T -= 1
+        case["T"] = T
+        if case["lens"] is not None:
+            case["lens"] = [min(l, T) for l in case["lens"]]
+        f32 = rng.random() < 0.5
+        case["dtype"] = "float32" if f32 else "float64"
+        case["width"] = min(case["width"], 8)
+        which = rng.choice(["acoustic", "lm", "both"]) if case["fusion"] != "none" else "acoustic"
+        if which in ("acoustic", "both"):
+            pinf = rng.choice([0.0, 0.0, 0.1])
+            logits = []
+            for _ in range(T):
+                per_n = []
+                for _ in range(N):
+                    r = _xrow(rng, V + 1, f32)
+                    r = [(-math.inf if rng.random() < pinf else v) for v in r]
+                    if all(v == -math.inf for v in r):
+                        r[rng.randrange(V + 1)] = float(rng.choice([-900, 0, 900]))
+                    per_n.append(r)
+                logits.append(per_n)
+            case["logits"] = logits
+        else:
+            case["logits"] = _rand_logits(rng, T, N, V, "dense")
+        if which in ("lm", "both"):
+            lm = case["lm"]
+            lm["raw"] = True
+            lm["table"] = [_xrow(rng, V, f32, lm=True) for _ in range(lm["M"])]
+            case["beta"] = rng.choice([0.005, 0.01, 0.02, 0.05, 0.25, 1.0])
+        return case
 
 
 def gen_search_exhaustive(thorough):
@@ -722,6 +805,10 @@ def gen_cases(chk):
         c = gen_search(rng, big=thorough and i % 4 == 0)
         c["stream"] = "search-random"
         cases.append(c)
+    for i in range(1200 if thorough else 90):
+        c = gen_search_extreme(rng)
+        c["stream"] = "search-extreme-magnitude"
+        cases.append(c)
     return cases
 
 
@@ -776,6 +863,9 @@ def run(chk, cases=None):
             chk.note_case(c, _lenmax(c) >= 2, stream)
             chk.count("search:fusion=%s" % (c["fusion"] if c["fusion"] == "none" or c["beta"] else c["fusion"] + "(beta=0)"))
             chk.count("search:T=%d" % c["T"])
+            chk.count("search:dtype=%s" % c.get("dtype", "float64"))
+            if c.get("lm") and c["lm"].get("raw"):
+                chk.count("search:lm-scores=unnormalised")
             chk.count("search:V=%d" % c["V"])
             chk.count("search:N=%d" % c["N"])
             chk.count("search:lens=%s" % ("none" if c["lens"] is None else "has0" if 0 in c["lens"] else "ragged" if len(set(c["lens"])) > 1 or c["lens"][0] != c["T"] else "full"))
